@@ -281,16 +281,27 @@ func verifHosts(l *roundRobinLoadBalancer) []*Host { return l.hosts.Load().([]*H
 //@   requires c != nil && c.closingMu != nil && c.pending != nil && nolocks()
 //@   modifies *
 
-// requestSender.Send: the frame goes out with the backend stream id allocated for it; nothing else
-// in the frame is written (C03: byte transparency except stream ids).
-//@ func proxycore.requestSender.Send [C02, C03]
+// requestSender.Send: what goes to the codec is the request's frame with the backend stream id allocated
+// for it in place of the original one - same body, same other header fields (C03: byte transparency
+// except stream ids). The request's own frame is NOT written: it is shared - by the retries of a request
+// that may still be in another connection's write queue, and, for re-prepares, by every connection
+// that takes the PREPARE frame from the prepared cache (C18: no unsynchronised write; C02: a frame never
+// goes out with another connection's stream id).
+//@ func proxycore.requestSender.Send [C02, C03, C18]
 //@   local $rsFrame interface{} = nil
+//@   local $rsEncoded bool = false
+//@   local $rsRaw *frame.RawFrame = nil
+//@   local $rsFrm *frame.Frame = nil
 //@   requires r != nil && r.conn != nil && r.conn.codec != nil && r.request != nil
 //@   after proxycore.Request.Frame#1 set $rsFrame = result
-//@   ensures raw-stream: typeis($rsFrame, *frame.RawFrame) && as($rsFrame, *frame.RawFrame) != nil && as($rsFrame, *frame.RawFrame).Header != nil ==> as($rsFrame, *frame.RawFrame).Header.StreamId == r.stream
-//@   ensures frame-stream: typeis($rsFrame, *frame.Frame) && as($rsFrame, *frame.Frame) != nil && as($rsFrame, *frame.Frame).Header != nil ==> as($rsFrame, *frame.Frame).Header.StreamId == r.stream
+//@   before frame.RawCodec.EncodeRawFrame#1 set $rsEncoded = true; $rsRaw = arg0
+//@   before frame.RawCodec.EncodeFrame#1 set $rsEncoded = true; $rsFrm = arg0
+//@   let src = as($rsFrame, *frame.RawFrame)
+//@   ensures raw-stream: typeis($rsFrame, *frame.RawFrame) && src != nil && src.Header != nil ==> $rsEncoded && $rsRaw != nil && $rsRaw.Header != nil && $rsRaw.Header.StreamId == r.stream
+//@   ensures raw-rest: typeis($rsFrame, *frame.RawFrame) && src != nil && src.Header != nil ==> $rsRaw.Body == src.Body && $rsRaw.Header.Version == src.Header.Version && $rsRaw.Header.Flags == src.Header.Flags && $rsRaw.Header.OpCode == src.Header.OpCode && $rsRaw.Header.BodyLength == src.Header.BodyLength && $rsRaw.Header.IsResponse == src.Header.IsResponse
+//@   ensures frame-stream: typeis($rsFrame, *frame.Frame) && as($rsFrame, *frame.Frame) != nil && as($rsFrame, *frame.Frame).Header != nil ==> $rsEncoded && $rsFrm != nil && $rsFrm.Header != nil && $rsFrm.Header.StreamId == r.stream && $rsFrm.Body == as($rsFrame, *frame.Frame).Body
 //@   ensures other-frame-kinds-refused: !typeis($rsFrame, *frame.RawFrame) && !typeis($rsFrame, *frame.Frame) ==> result != nil
-//@   modifies any(frame.Header).StreamId
+//@   modifies nothing
 
 // Send: register, then enqueue a sender carrying the allocated stream id.
 //@ func proxycore.ClientConn.Send [C01, C02]
